@@ -83,7 +83,10 @@ Inductive expr :=
 | EProp (x : var) (p : string)
 | EBin (o : binop) (a b : expr)
 | EUn (o : unop) (a : expr)
-| EHasLabel (x : var) (l : string).   (* FunctionCall "hasLabel" [Variable x; Literal (String l)] *)
+| EHasLabel (x : var) (l : string)    (* FunctionCall "hasLabel" [Variable x; Literal (String l)] *)
+| EOpaque (tag : string) (vars : list var).
+   (* any other expression (function call, CASE, list, ...): what the rewrites can see of it — the
+      variables it mentions — and a tag that tells two such expressions apart; its value is not modelled *)
 
 Definition binop_eqb (a b : binop) : bool :=
   match a, b with
@@ -97,6 +100,13 @@ Definition unop_eqb (a b : unop) : bool :=
   | _, _ => false
   end.
 
+Fixpoint strs_eqb (a b : list string) : bool :=
+  match a, b with
+  | [], [] => true
+  | x :: a', y :: b' => String.eqb x y && strs_eqb a' b'
+  | _, _ => false
+  end.
+
 Fixpoint expr_eqb (a b : expr) : bool :=
   match a, b with
   | ELit x, ELit y => val_eqb x y
@@ -105,6 +115,7 @@ Fixpoint expr_eqb (a b : expr) : bool :=
   | EBin o a1 a2, EBin o' b1 b2 => binop_eqb o o' && expr_eqb a1 b1 && expr_eqb a2 b2
   | EUn o a1, EUn o' b1 => unop_eqb o o' && expr_eqb a1 b1
   | EHasLabel x l, EHasLabel y m => String.eqb x y && String.eqb l m
+  | EOpaque t vs, EOpaque t' vs' => String.eqb t t' && strs_eqb vs vs'
   | _, _ => false
   end.
 
@@ -193,6 +204,7 @@ Fixpoint eval (G : graph) (e : expr) (r : row) : option val :=
       | Some (VNode id) => match find_node G id with Some n => Some (VBool (has_label n l)) | None => None end
       | _ => None
       end
+  | EOpaque _ _ => None
   end.
 
 (** [Predicate::evaluate]: a row passes iff the value is [Bool(true)]. *)
